@@ -67,6 +67,9 @@ pub struct Scn {
     /// `export { x as chained_counter }`, 2 import under a temporary name then export renamed
     #[serde(default)]
     pub chain_styles: Vec<u8>,
+    /// the host may also supply the entry program's own source under its own path (unrequested)
+    #[serde(default)]
+    pub supply_entry: bool,
 }
 
 pub struct C09;
@@ -202,7 +205,8 @@ pub fn generate_graph(rng: &mut Rng) -> Scn {
     let gc_threshold = *rng.pick(&[0u32, 1, 3, 100]);
     let counter_style = rng.below(3) as u8;
     let chain_styles = (0..3).map(|_| rng.below(3) as u8).collect();
-    Scn { modules, tapes, live, gc_threshold, counter_style, chain_styles }
+    let supply_entry = rng.chance(0.3);
+    Scn { modules, tapes, live, gc_threshold, counter_style, chain_styles, supply_entry }
 }
 
 fn pick_kind(rng: &mut Rng) -> ImportKind {
@@ -422,6 +426,7 @@ fn run_schedule(scn: &Scn, tape: &Tape, rep: &mut RunReport, si: usize) -> Optio
     let mut tape = tape.clone();
     let by_path: BTreeMap<String, usize> = scn.modules.iter().enumerate().map(|(i, m)| (m.path.clone(), i)).collect();
     let mut provided: BTreeSet<String> = BTreeSet::new();
+    let mut entry_supplied = false;
     let mut requested_ever: BTreeSet<String> = BTreeSet::new();
     let mut trace = String::new();
     let main = &scn.modules[0];
@@ -513,6 +518,16 @@ fn run_schedule(scn: &Scn, tape: &Tape, rep: &mut RunReport, si: usize) -> Optio
                             rep.bump("fault_early_delivery", 1);
                             trace.push_str(&format!("early:{};", m.path));
                         }
+                    }
+                }
+                if scn.supply_entry && !entry_supplied && tape.chance(1, 3) {
+                    // a host that hands over every file it knows: the entry program's own source under
+                    // its own path, while that program is already waiting for its imports
+                    let m = &scn.modules[0];
+                    if h.interp.provide_module(ModulePath::new(m.path.clone()), &source_of(scn, 0)).is_ok() {
+                        entry_supplied = true;
+                        rep.bump("fault_entry_module_supplied_as_dependency", 1);
+                        trace.push_str("early:entry;");
                     }
                 }
                 if tape.chance(1, 5) && !provided.is_empty() {
